@@ -87,8 +87,113 @@ pub fn container_path(dir: &Path, target: &str) -> std::path::PathBuf {
 	}
 }
 
+/// Walk the number of tiles across the point where the PMTiles root directory stops fitting into
+/// the first 16 KiB (single directory -> leaf directories): every step is a full round trip.
+fn pmtiles_root_boundary_walk(cx: &CaseCtx, rep: &mut Report, rng: &mut Rng) {
+	use std::collections::BTreeMap;
+	cx.progress("pmtiles root-directory boundary walk");
+	let z = 12u8;
+	let (x0, y0) = (rng.range(0, 3000) as u32, rng.range(0, 3000) as u32);
+	let mut all: Vec<(u32, u32)> = vec![];
+	for dx in 0..240u32 {
+		for dy in 0..240u32 {
+			all.push((x0 + dx, y0 + dy));
+		}
+	}
+	rng.shuffle(&mut all);
+	let payload = |x: u32, y: u32, rng: &mut Rng| {
+		let n = rng.range(1, 400) as usize;
+		let mut v = format!("T:{z}/{x}/{y};").into_bytes();
+		v.extend(rng.bytes(n));
+		v
+	};
+	let payloads: Vec<Vec<u8>> = all.iter().take(9000).map(|(x, y)| payload(*x, *y, rng)).collect();
+	let make = |n: usize| -> TileSet {
+		let tiles: BTreeMap<crate::gen::Key, Vec<u8>> = (0..n).map(|i| ((z, all[i].0, all[i].1), payloads[i].clone())).collect();
+		TileSet { format: TileFormat::PNG, comp: crate::comp::Comp::None, tiles, tilejson: "{\"tilejson\":\"3.0.0\"}".into(), shape: format!("{n} scattered tiles at z12 (root-directory boundary walk)"), really_compressed: false }
+	};
+	let write = |ts: &TileSet| -> Result<Vec<u8>, String> {
+		let mut src = MemSource::new(ts);
+		let mut w = DataWriterBlob::new().map_err(|e| e.to_string())?;
+		guard::block_on(PMTilesWriter::write_to_writer(&mut src, &mut w)).map_err(|e| format!("{e:#}"))?;
+		Ok(w.into_blob().into_vec())
+	};
+	// find the largest n whose file still has no leaf directories
+	let (mut lo, mut hi) = (500usize, 8000usize);
+	let mut guard_n = 0;
+	while hi - lo > 4 && guard_n < 20 {
+		guard_n += 1;
+		let mid = (lo + hi) / 2;
+		let leaf = write(&make(mid)).ok().and_then(|b| codec::ipm::parse_header(&b).ok()).map(|h| h.leaves.1 > 0).unwrap_or(true);
+		if leaf {
+			hi = mid;
+		} else {
+			lo = mid;
+		}
+	}
+	rep.count("pmtiles_boundary_walks", 1);
+	let mut root_sizes = vec![];
+	for n in (lo.saturating_sub(60)..=lo + 60).step_by(3) {
+		let ts = make(n);
+		rep.eval();
+		rep.count("roundtrips_pmtiles", 1);
+		let witness = |extra: serde_json::Value| json!({"target": "pmtiles", "tileset": ts.describe(), "detail": extra});
+		let r = guard::catch(|| write(&ts));
+		let bytes = match r {
+			Err(p) => {
+				rep.violation(&p.signature("write-pmtiles"), "writing the container panicked", witness(json!({"panic": p.describe()})));
+				continue;
+			}
+			Ok(Err(e)) => {
+				rep.violation("pmtiles|write-failed", "writing the container failed", witness(json!({"error": e})));
+				continue;
+			}
+			Ok(Ok(b)) => b,
+		};
+		if let Ok(h) = codec::ipm::parse_header(&bytes) {
+			root_sizes.push(h.root.1);
+			rep.max("pmtiles_root_directory_bytes_without_leaves", if h.leaves.1 == 0 { h.root.1 } else { 0 });
+			if h.root.0 + h.root.1 > 16384 {
+				rep.violation("pmtiles|layout-root-beyond-16k", "PMTiles root directory is not inside the first 16 KiB", witness(json!({"root": [h.root.0, h.root.1]})));
+			}
+			if h.root.0 + h.root.1 > h.meta.0 && h.meta.0 >= h.root.0 {
+				rep.violation("pmtiles|root-overlaps-metadata", "root directory overlaps the metadata section", witness(json!({"root": [h.root.0, h.root.1], "metadata": [h.meta.0, h.meta.1]})));
+			}
+		}
+		rep.nontrivial(ts.fingerprint());
+		match codec::ipm::decode(&bytes) {
+			Err(e) => rep.violation("pmtiles|decoder-cannot-parse", "an independent decoder cannot parse the written container", witness(json!({"error": e}))),
+			Ok(d) => {
+				for f in check::compare_decoded(&d, &ts, true) {
+					rep.violation(&format!("pmtiles|{}", f.kind), "an independent decoder recovers a different mapping / declaration", witness(f.detail));
+				}
+			}
+		}
+		let opened = guard::catch(|| guard::block_on(PMTilesReader::open_reader(Box::new(DataReaderBlob::from(bytes.clone())))));
+		match opened {
+			Err(p) => rep.violation(&p.signature("open-pmtiles"), "opening the written container panicked", witness(json!({"panic": p.describe()}))),
+			Ok(Err(e)) => rep.violation("pmtiles|open-failed|other", "the written container cannot be opened", witness(json!({"error": format!("{e:#}")}))),
+			Ok(Ok(reader)) => {
+				let o = ReaderCheckOpts { exact_coverage: false, check_streams: false, multi_thread: false, extra_random: 5 };
+				let (findings, st) = check::check_reader(&reader, &ts.tiles, rng, &o);
+				rep.count("lookups", st.lookups);
+				for f in findings {
+					rep.violation(&format!("pmtiles|{}", f.kind), "round trip through the repo's reader differs from the source", witness(f.detail));
+				}
+			}
+		}
+	}
+	if rep.wants_sample() {
+		rep.sample(json!({"kind": "pmtiles root-directory boundary walk", "tiles_at_boundary": lo, "root_directory_sizes_seen": root_sizes.iter().take(12).collect::<Vec<_>>()}));
+	}
+}
+
 fn run_case(cx: &CaseCtx, rep: &mut Report) {
 	let mut rng = cx.rng();
+	if cx.case == 11 || (cx.case == 12 && cx.tier == Tier::Thorough) {
+		pmtiles_root_boundary_walk(cx, rep, &mut rng);
+		return;
+	}
 	let target = TARGETS[(cx.case % 5) as usize];
 	let big = cx.case < 10 && (target == "pmtiles" || target == "versatiles") && cx.case < 5 * cx.tier.pick(1, 2);
 	let ts = if big {
